@@ -68,6 +68,9 @@ def to_sym(x, sort):
         return ObjV("opaque", {"__id__": IntV(0)})
     if base == "Seq":
         return conc_seq(tuple(x), "tuple")
+    if base == "IntList":
+        sq = conc_seq(tuple(x), "list")
+        return ListV(sq.n, sq._at)
     if base == "none":
         return NONE
     raise Unsupported(f"concrete value of sort {sort}")
@@ -97,7 +100,7 @@ def oracle_call(K, args):
         return IntV(int(res))
     if r == "bool":
         return BoolV(bool(res))
-    if r in ("Seq", "gen", "IntList"):
+    if r in ("Seq", "gen", "IntList", "List"):
         return conc_seq(tuple(res))
     if r == "Perm":
         return conc_seq(tuple(res), "Perm")
